@@ -255,8 +255,8 @@ def fromScalars (zero : α) (args : List (Q α)) (classes : List Cls) (recursive
 
 /-! ### class conversions that leave the values where they are
     (scalar.py:69-90 as_scalar, boolean.py:45-58 as_int, vector.py:43-92 as_vector, vector3.py:31-53 as_vector3,
-     pair.py:32-62 as_pair, matrix.py:35-54 as_matrix; /repo main incl. the repair that hands the operand's
-     derivatives to the constructor) -/
+     pair.py:32-66 as_pair, matrix.py:35-54 as_matrix; incl. the repairs that hand the operand's derivatives to the
+     constructor and that split every derivative like the object in the split_items branch) -/
 
 def _root_.PMV.Shaper.Cls.isVector : Cls → Bool
   | .vector | .vector3 | .pair | .quaternion => true
@@ -282,6 +282,14 @@ def ctorFromArrays (cls : Cls) (q : Q α) : Except Err (Q α) := do
 
 def keepOrWod (recursive : Bool) (q : Q α) : Q α := if recursive then q else wod q
 
+/-- `deriv.split_items(nrank, classes)` on one derivative (a `recursive=False` object) -/
+def splitItems0 (d : Q0 α) (nrank : Nat) (classes : List Cls) : Except Err (Q0 α) :=
+  (splitItems ⟨d, []⟩ nrank classes).map (·.base)
+
+/-- `{key: deriv.split_items(1, cls)}`: every derivative goes through the same split as the object -/
+def splitDerivs (q : Q α) (cls : Cls) : Except Err (List (String × Q0 α)) :=
+  q.derivs.mapM fun kd => (splitItems0 kd.2 1 [cls]).map fun d => (kd.1, d)
+
 /-- `Scalar.as_scalar` -/
 def asScalar (q : Q α) (recursive : Bool) : Except Err (Q α) :=
   if q.base.cls = .boolean then
@@ -306,7 +314,11 @@ def asVector (q : Q α) (recursive : Bool) : Except Err (Q α) :=
     -- `result.insert_deriv(key, Vector.as_vector(value, False))`
     let ds ← if recursive then mapDerivs b q.derivs scalarToVector0 else pure []
     pure ⟨b, ds⟩
-  else if q.base.numer.length + q.base.denom.length > 1 then splitItems q 1 [.vector]
+  else if q.base.numer.length + q.base.denom.length > 1 then do
+    -- `result = arg.split_items(1, Vector)`; with recursive=True every derivative is split the same way and inserted
+    let r ← splitItems q 1 [.vector]
+    let ds ← if recursive then mapDerivs r.base q.derivs (splitItems0 · 1 [.vector]) else pure []
+    pure ⟨r.base, ds⟩
   else (ctorFromQube .vector q).map (keepOrWod recursive)
 
 /-- `arg._numer_[0]` -/
@@ -322,7 +334,12 @@ def asVector3 (q : Q α) (recursive : Bool) : Except Err (Q α) :=
   else do
     let q ← if q.base.numer.length + q.base.denom.length > 1 then do
         let n0 ← numer0 q
-        if n0 = 3 then splitItems q 1 [.vector3] else pure q
+        if n0 = 3 then do
+          -- the derivatives are split like the object and handed to the constructor below
+          let ds ← splitDerivs q .vector3
+          let r ← splitItems q 1 [.vector3]
+          pure ⟨r.base, ds⟩
+        else pure q
       else pure q
     (ctorFromQube .vector3 q).map (keepOrWod recursive)
 
@@ -333,7 +350,11 @@ def asPair (q : Q α) (recursive : Bool) : Except Err (Q α) :=
   else do
     let q ← if q.base.numer.length + q.base.denom.length > 1 then do
         let n0 ← numer0 q
-        if n0 = 2 then splitItems q 1 [.pair] else pure q
+        if n0 = 2 then do
+          let ds ← splitDerivs q .pair
+          let r ← splitItems q 1 [.pair]
+          pure ⟨r.base, ds⟩
+        else pure q
       else pure q
     (ctorFromArrays .pair q).map (keepOrWod recursive)
 
